@@ -7,7 +7,7 @@ set_option linter.unusedSimpArgs false
 namespace Muscle.Reflector
 open Muscle
 
-def applyAll (m : Mirror) (us : List UpdMsg) : Mirror := us.foldl applyMsg m
+def applyMsgs (m : Mirror) (us : List UpdMsg) : Mirror := us.foldl applyMsg m
 
 /-- value of one path after the removals -/
 theorem removed_fold_val (rs : List Bytes) (m : Mirror) (q : Bytes) :
@@ -163,13 +163,13 @@ theorem applyMsg_noNames (m : Mirror) (u : UpdMsg) (h : u.numNames = 0) : applyM
   simp [applyMsg_val, h1, h2, setsVal]
 
 /-- the state of the client if everything built so far were delivered now -/
-def Pipe.view (s : Pipe) (m : Mirror) : Mirror := applyMsg (applyAll m s.sent) s.cur
+def Pipe.view (s : Pipe) (m : Mirror) : Mirror := applyMsg (applyMsgs m s.sent) s.cur
 
 theorem view_flush (s : Pipe) (m : Mirror) : s.flush.view m = s.view m := by
   unfold Pipe.flush Pipe.view
   by_cases h : s.cur.numNames = 0
   · simp [h]
-  · simp [h, applyAll, List.foldl_append, applyMsg_empty]
+  · simp [h, applyMsgs, List.foldl_append, applyMsg_empty]
 
 theorem view_feed (k : Nat) (s : Pipe) (m : Mirror) (e : Ev) : (feed k s e).view m = applyEv (s.view m) e := by
   cases e with
